@@ -9,7 +9,10 @@ Require Import MS.Base.Res MS.Base.Hex MS.Model.Rows MS.Model.Wire MS.Corr.Commo
 Definition rawcols := list (positive * Z * positive).        (* name, element type, raw data *)
 
 (** an observed decoded ColumnSeriesMap: code 0 ok / 1 error / 2 panic, entries (key, columns) *)
-Record obs_csm := { d_code : nat; d_map : list (positive * rawcols) }.
+Record obs_csm := { d_code : nat;
+                    d_same : bool;     (* the harness found the decoded map identical to the input buckets
+                                          (keys, names, order, types, bytes): [d_map] is then omitted *)
+                    d_map : list (positive * rawcols) }.
 
 Record case := {
   k_buckets : list (positive * rawcols);   (* (TimeBucketKey.String(), columns) in fold order *)
@@ -44,15 +47,16 @@ Definition amap_eqb (a b : list (key * nat)) : bool :=
   (length a =? length b)%nat
   && forallb (fun e => match alookup (fst e) b with Some v => (snd e =? v)%nat | None => false end) a.
 
-Definition obs_eq (o : obs_csm) (r : Res csm) : bool :=
+Definition obs_eq (input : list bucket) (o : obs_csm) (r : Res csm) : bool :=
   match r with
-  | Ok m => (d_code o =? 0)%nat && csm_eqb m (mk_buckets (d_map o))
+  | Ok m => (d_code o =? 0)%nat && csm_eqb m (if d_same o then input else mk_buckets (d_map o))
   | Rejected => (d_code o =? 1)%nat
   | Panic => (d_code o =? 2)%nat
   end.
 
 Definition agrees (k : case) : bool :=
-  match encode (mk_buckets (k_buckets k)) with
+  let input := mk_buckets (k_buckets k) in
+  match encode input with
   | Ok None => (k_enc_code k =? 0)%nat && k_enc_nil k
   | Ok (Some w) =>
       (k_enc_code k =? 0)%nat && negb (k_enc_nil k) && k_foldtie k
@@ -62,8 +66,8 @@ Definition agrees (k : case) : bool :=
       && (w_length w =? k_length k)%nat
       && amap_eqb (w_start w) (mk_amap (k_start k))
       && amap_eqb (w_lens w) (mk_amap (k_lens k))
-      && obs_eq (k_dec k) (to_csm w)
-      && obs_eq (k_resp k) (resp_to_csm w)
+      && obs_eq input (k_dec k) (to_csm w)
+      && obs_eq input (k_resp k) (resp_to_csm w)
   | Rejected => (k_enc_code k =? 1)%nat
   | Panic => (k_enc_code k =? 2)%nat
   end.
